@@ -133,6 +133,15 @@ def directed_cases(tier):
     root = leaf(); root["depends"] = [{"name": "ma", "use": ["result", "deps"]}, {"name": "mb", "use": ["result", "deps"]}]
     model3 = {"recipes": {"root": root, "ma": ma, "mb": mb, "mc": mc, "lib": lib}, "classes": {}, "default_env": {}, "sources": {},
               "order": ["root", "ma", "mb", "mc", "lib"], "features": ["directed-kill-inside-map-refresh"]}
+    # release mode: lib[a] -> 1, lib[b] -> 2; lib[a] goes away and is cleaned; a new variant lib[c] must not
+    # be given the number of lib[b], which still exists
+    for mid_build in (False, True):
+        for mode, cm in (("build", "release"), ("dev", "develop")):
+            ops = [[mode, 1, 1], ["edit", {"kind": "dep_remove", "recipe": "root", "index": 0}]] + ([[mode, 1, 2]] if mid_build else []) + [
+                   ["clean", cm, False, False],
+                   ["edit", {"kind": "dep_add", "recipe": "root", "dep": "mc", "pos": 5}], [mode, 1, 3], [mode, 1, 4],
+                   ["clean", cm, False, False], [mode, 1, 5]]
+            out.append({"model": model3, "ops": ops, "directed": "lower-numbered variant cleaned away, new variant arrives while a higher number is alive"})
     for nth in range(1, 9):
         for when in (("after",) if nth % 2 else ("before", "after")):
             ops = [["dev", 1, 1],
